@@ -119,7 +119,7 @@ def _snap(o):
     d = {"coord": np.asarray(o, dtype=float).tobytes(), "form": o.form.name, "frame": o.frame.name, "date": (o.date._d, o.date._s), "name": getattr(o, "name", None),
          "mans": [(m.date._d, m.date._s, np.asarray(m._dv).tobytes(), m.frame, m.comment) for m in o.maneuvers] if "maneuvers" in o._data else None,
          "cov": (np.asarray(o.cov, dtype=float).tobytes(), str(o.cov.frame)) if o._data.get("cov") is not None else None, "type": type(o).__name__,
-         "extra": o._data.get("extra")}
+         "extra": o._data.get("extra"), "free": {nm: o._data.get(nm) for nm in ("t", "op", "prop", "or", "at", "f", "fra", "dat", "co") if nm in o._data}}
     return d
 
 
@@ -201,6 +201,9 @@ def _(c):
             elif op == "set_meta":
                 mutates = True
                 tgt.extra = {"k": a}
+                # (free metadata under short / awkward names as well: they are carried like any other)
+                for nm in ("t", "op", "prop", "or", "at", "f", "fra", "dat", "co")[: 1 + a % 9]:
+                    tgt._data[nm] = f"{nm}-{a}"
             elif op == "set_maneuvers":
                 mutates = True
                 tgt.maneuvers = [ImpulsiveMan(tgt.date + timedelta(seconds=a), [0.0, 1.0, 0.0], comment=f"m{a}")]
@@ -404,7 +407,7 @@ def _sv_setup(c, orbit=False, never_fail=False):
     cov = _Tok("cov", log, frame=frames["A"]) if bool(c.boolean("has_cov")) else None
     mans = [_Ghost("man", "m1", log)]
     date = _Ghost("date", "t0", log)
-    kw = dict(cov=cov, maneuvers=mans, name="SAT")
+    kw = dict(cov=cov, maneuvers=mans, name="SAT", t="free metadata under a short name", op="another", prop="and another")
     if orbit:
         sv = w.cls(f"{ORB}:Orbit")(x0, date, forms["keplerian"], frames["A"], _Tok("propagator", log), **kw)
     else:
